@@ -300,6 +300,41 @@ func (s *Sim) oracleC03(op Op) {
 			s.violate("C03", "shim-alloc-res", "", "the shim holds %s with %s, the core with %s", k, m.Res, al.Res)
 		}
 	}
+	// an ask the shim still holds as outstanding is an ask the core still has
+	for _, k := range s.shim.sortedAllocKeys() {
+		m := s.shim.Allocs[k]
+		if m.Status != stPending {
+			continue
+		}
+		sa := s.shim.Apps[m.App]
+		ca := p.Apps[m.App]
+		if sa == nil || sa.Status != "accepted" || ca == nil {
+			continue
+		}
+		if _, ok := ca.Asks[k]; !ok {
+			s.violate("C04", "outstanding-ask-lost", ca.State, "the shim holds ask %s of application %s (%s) as outstanding, the core has no such ask: it was dropped without a rejection or release the shim could act on", k, m.App, ca.State)
+		}
+	}
+	// a rejected item leaves no trace
+	for _, id := range sortedKeys(s.shim.Apps) {
+		if a := s.shim.Apps[id]; a.Status == "rejected" {
+			if ca := p.Apps[id]; ca != nil {
+				s.violate("C04", "rejected-app-left-trace", "", "application %s was answered with a rejection (%s) but the partition lists it as live in state %s", id, a.RejectMsg, ca.State)
+			}
+			for _, path := range sortedKeys(p.Queues) {
+				if contains(p.Queues[path].Apps, id) {
+					s.violate("C04", "rejected-app-left-trace", "queue", "application %s was answered with a rejection but queue %s lists it", id, path)
+				}
+			}
+		}
+	}
+	for _, id := range sortedKeys(s.shim.Nodes) {
+		if n := s.shim.Nodes[id]; n.Status == "rejected" && n.Answers == 1 {
+			if _, ok := p.Nodes[id]; ok {
+				s.violate("C04", "rejected-node-left-trace", "", "node %s was answered with a rejection but the partition lists it", id)
+			}
+		}
+	}
 	for _, id := range sortedKeys(p.Apps) {
 		for _, k := range sortedKeys(p.Apps[id].Allocs) {
 			al := p.Apps[id].Allocs[k]
@@ -423,9 +458,11 @@ func (s *Sim) checkBinding(prop, key, node string, m *MAlloc, preds []PredCall, 
 			}
 		}
 	} else {
+		// a reservation that the same cycle cleaned up first (its ask was allocated or removed) does not count: the
+		// node must have been reserved for the other ask before and after the step
 		for _, rk := range sortedKeys(pn.Reserved) {
-			if rk != key {
-				s.violate(prop, "reserved-for-other", "", "scheduler bound %s to node %s which was reserved for %s", key, node, rk)
+			if post := s.post.Nodes[node]; rk != key && post != nil && post.Reserved[rk] != "" {
+				s.violate(prop, "reserved-for-other", "", "scheduler bound %s to node %s which was and still is reserved for %s", key, node, rk)
 				break
 			}
 		}
